@@ -91,6 +91,87 @@ def u_atomic(c):
     c.oblige("post/last-setting-wins", "old-value" not in text and "/old" not in text)
 
 
+class _tz:
+    """run a block under a process time zone (the expiry arithmetic must not depend on it)"""
+    def __init__(self, name):
+        self.name = name
+
+    def __enter__(self):
+        import os
+        import time
+        self.old = os.environ.get("TZ")
+        os.environ["TZ"] = self.name
+        time.tzset()
+
+    def __exit__(self, *a):
+        import os
+        import time
+        if self.old is None:
+            os.environ.pop("TZ", None)
+        else:
+            os.environ["TZ"] = self.old
+        time.tzset()
+
+
+def _expiry_of(text):
+    import email.utils
+    for part in text.split(";"):
+        k, _, v = part.strip().partition("=")
+        if k.lower() == "expires":
+            return email.utils.parsedate_to_datetime(v).timestamp(), v
+    return None, None
+
+
+@unit("C25", "RequestHandler.set_cookie.expiry", [(M, "RequestHandler.set_cookie")])
+def u_expiry(c):
+    """The Expires attribute is exactly the requested instant: now + expires_days (whatever the process time zone), or the given
+    datetime (aware: that instant; naive: UTC, as documented) or timestamp; rendered in the fixed GMT format."""
+    import datetime
+    import time
+    import tornado.web as W
+    tz = c.choose("process-time-zone", ["UTC", "Asia/Tokyo", "America/New_York"])
+    how = c.choose("expiry", ["days-1", "days-half", "days-365", "days-0", "aware-utc", "aware-offset", "naive", "timestamp", "both-given"])
+    h = W.RequestHandler.__new__(W.RequestHandler)
+    h.application = types.SimpleNamespace(settings={})
+    h.request = types.SimpleNamespace(headers={})
+    fixed = datetime.datetime(2031, 3, 4, 5, 6, 7, tzinfo=datetime.timezone.utc)
+    kw, rel, want = {}, None, None
+    if how.startswith("days-"):
+        rel = {"1": 1, "half": 0.5, "365": 365, "0": 0}[how[5:]]
+        kw = dict(expires_days=rel)
+    elif how == "aware-utc":
+        kw, want = dict(expires=fixed), fixed.timestamp()
+    elif how == "aware-offset":
+        kw, want = dict(expires=fixed.astimezone(datetime.timezone(datetime.timedelta(hours=9)))), fixed.timestamp()
+    elif how == "naive":
+        kw, want = dict(expires=fixed.replace(tzinfo=None)), fixed.timestamp()
+    elif how == "timestamp":
+        kw, want = dict(expires=fixed.timestamp()), fixed.timestamp()
+    else:
+        kw, want = dict(expires=fixed, expires_days=3), fixed.timestamp()       # an explicit expires takes precedence (documented: expires_days is used when expires is not given)
+    with _tz(tz):
+        t_before = time.time()
+        out = c.call(c.fn(M, "RequestHandler.set_cookie"), h, "n", "v", **kw)
+        t_after = time.time()
+    c.only_raises(out, ())
+    c.cover("expiry/%s" % how)
+    if out.raised:
+        return
+    text = jar_snapshot(h)["n"]
+    ts, shown = _expiry_of(text)
+    if how == "days-0":
+        # expires_days=0 is falsy in the source's test?  The statement: attributes are exactly those requested; 0 days from now is "now".
+        c.oblige("post/expires_days-0-is-now-or-no-expiry", ts is None or t_before - 1 <= ts <= t_after + 1)
+        return
+    c.oblige("post/an-expiry-was-emitted-in-the-fixed-GMT-format", ts is not None and re.fullmatch(r"(Mon|Tue|Wed|Thu|Fri|Sat|Sun), \d\d (Jan|Feb|Mar|Apr|May|Jun|Jul|Aug|Sep|Oct|Nov|Dec) \d{4} \d\d:\d\d:\d\d GMT", shown or "") is not None)
+    if ts is None:
+        return
+    if rel is not None:
+        c.oblige("post/expires-is-now-plus-the-requested-days-in-any-time-zone", t_before + rel * 86400 - 1 <= ts <= t_after + rel * 86400 + 1)
+    else:
+        c.oblige("post/expires-is-the-requested-instant", ts == int(want))
+
+
 # ---------------------------------------------------------------------------------- bounded stand-in
 def standin(tier, seed):
     import itertools
@@ -157,7 +238,9 @@ def standin(tier, seed):
                     raised.append(type(e).__name__)
                 self.write("done")
         evals += 1
-        res = S.run_server([b"GET / HTTP/1.1\r\nHost: h\r\n\r\n"], make_app=lambda r: W.Application([(r"/", H)]), eof=False)
+        t_call = time.time()
+        with _tz("Asia/Tokyo"):                  # the expiry arithmetic must not depend on the process time zone
+            res = S.run_server([b"GET / HTTP/1.1\r\nHost: h\r\n\r\n"], make_app=lambda r: W.Application([(r"/", H)]), eof=False)
         head, sep, body = bytes(res.sent).partition(b"\r\n\r\n")
         lines = head.split(b"\r\n")
         sc = [l.split(b":", 1)[1].strip().decode("latin1") for l in lines[1:] if l.lower().startswith(b"set-cookie:")]
@@ -181,6 +264,13 @@ def standin(tier, seed):
         exp = expected_attrs(attrs)
         ga = dict(got_attrs)
         if "expires" in ga and "expires" in exp:
+            ts, _shown = _expiry_of(sc[0])
+            if attrs.get("expires") is not None:
+                good = ga["expires"] == "Wed, 02 Jan 2030 03:04:05 GMT"
+            else:
+                good = ts is not None and t_call - 1 + attrs["expires_days"] * 86400 <= ts <= time.time() + 1 + attrs["expires_days"] * 86400
+            if not good:
+                fail("Expires on the wire is %r, requested %r" % (ga["expires"], {k: v for k, v in attrs.items() if k.startswith("expires")}), name=name, attrs=attrs, header=sc[0], time_zone="Asia/Tokyo")
             ga["expires"] = "*"
         if ga != exp:
             fail("attributes on the wire %r, requested %r" % (got_attrs, exp), name=name, attrs=attrs, header=sc[0])
